@@ -12,7 +12,7 @@ from typing import Dict, List, Optional, Set, Tuple
 
 from ..index import AnalysisError, ClassInfo, FunctionInfo, call_name, norm, norm1, parent_map, walk_no_nested
 from .attrs import guarded_by_hasattr, self_loads
-from .common import const_of, enclosing, fctx, in_body, is_name, method_calls, stmts
+from .common import const_of, enclosing, fctx, in_body, is_name, method_calls, pmatch, stmts
 
 from ..sem import Sem
 from .groups import check_group_trace
@@ -234,9 +234,27 @@ def run(ctx) -> None:
             r4.check(kw.get("degen_thresh") == "self.degen_thresh" and kw.get("degen_Kramers") == "self.degen_Kramers", f"{f.qualname}: groups come from the "
                      f"calculator's degeneracy settings", f, c, f"{f.qualname} does not group bands with its degen_thresh/degen_Kramers", stmt="group settings")
     r4.instance(dy.short)
-    t = norm(dy.node).replace(" ", "")
-    r4.check("formula.trace_ln(ik,np.arange(*pair[0]),np.arange(*pair[1]))" in t and "fromibm,Emindegen_groups.items()foribn,Enindegen_groups.items()" in t.replace("for", "from", 1) or
-             "formula.trace_ln(ik,np.arange(*pair[0]),np.arange(*pair[1]))" in t,
+    DS = Sem(idx, dy)
+    okdyn = False
+    tl = [c_ for c_ in method_calls(dy.node, "trace_ln") if len(c_.args) == 3]
+    if len(tl) == 1:
+        comp = enclosing(DS.pm, tl[0], (ast.ListComp, ast.GeneratorExp))
+        if comp is not None and comp.elt is tl[0]:
+            at_ = DS.cfg.node(enclosing(DS.pm, comp, ast.stmt))
+            elt = DS.comp_element(comp, at_)
+            m_ = pmatch(elt, "F_.trace_ln(K_, np.arange(*A_), np.arange(*B_))", {"F_", "K_", "A_", "B_"})
+            if m_ and m_[0][0] is elt:
+                A_, B_ = m_[0][1]["A_"], m_[0][1]["B_"]
+                for pc in ast.walk(dy.node):
+                    if isinstance(pc, ast.ListComp) and len(pc.generators) == 2 and isinstance(pc.elt, ast.Tuple) and len(pc.elt.elts) >= 2:
+                        g1, g2 = pc.generators
+                        if all(isinstance(g_.iter, ast.Call) and isinstance(g_.iter.func, ast.Attribute) and g_.iter.func.attr == "items" and isinstance(g_.target, ast.Tuple) for g_ in (g1, g2)) \
+                                and norm(g1.iter) == norm(g2.iter) and norm(g1.target.elts[0]) == A_ and norm(g2.target.elts[0]) == B_ \
+                                and [norm(x) for x in pc.elt.elts[:2]] == [A_, B_]:
+                            dsrc = DS.resolve(g1.iter.func.value, DS.cfg.node(enclosing(DS.pm, pc, ast.stmt)))
+                            okdyn = isinstance(dsrc, ast.Call) and call_name(dsrc).endswith("get_bands_in_range_groups_ik") and \
+                                {k.arg: norm(k.value) for k in dsrc.keywords}.get("degen_thresh") == "self.degen_thresh"
+    r4.check(okdyn,
              "dynamic calculators sum matrix elements over whole group pairs", dy, dy.node,
              "DynamicCalculator no longer sums matrix elements over whole degenerate groups", stmt="trace_ln over groups")
 
